@@ -71,7 +71,8 @@ Record dst := {
   unavail : list N;            (* Pool.unavailable *)
   leases : amap lease;         (* Server.leases: mac -> lease *)
   bycid : amap (N * lease);    (* Server.leasesByCircuitID: cid -> (mac of the lease object, lease) *)
-  nat : list N;                (* nat.Manager.allocations / subscriber_nat keys: private ip *)
+  nat : list N;                (* nat.Manager.allocations: private ip *)
+  natk : list N;               (* subscriber_nat keys (kernel) *)
   qos : list N;                (* qos_egress keys: ip *)
   qosi : list N;               (* qos_ingress keys *)
   qost : list N;               (* qos.Manager.subscribers (tracked only after both Puts succeeded) *)
@@ -85,7 +86,7 @@ Record dst := {
 }.
 
 Definition dinit (c : dcfg) : dst :=
-  {| avail := c_avail0 c; alloc := []; unavail := []; leases := []; bycid := []; nat := []; qos := []; qosi := []; qost := [];
+  {| avail := c_avail0 c; alloc := []; unavail := []; leases := []; bycid := []; nat := []; natk := []; qos := []; qosi := []; qost := [];
      cmac := []; chash := []; csub := []; cvlan := []; nsid := 0; starts := []; stops := [] |}.
 
 Inductive dop :=
@@ -95,7 +96,8 @@ Inductive dop :=
 | Release (mac : N)
 | Decline (mac ip : N)            (* ip = requested-address option; 0 = absent *)
 | Age (d : Z)
-| Tick (order : list N).          (* one cleanupExpiredLeases; order = Go map iteration order (oracle) *)
+| Tick (order : list N)           (* one cleanupExpiredLeases; order = Go map iteration order (oracle) *)
+| Flush (k : N).                  (* kernel map k (numbering of c_full) emptied behind the managers' back: datapath reload / flush *)
 
 (* existingLease of handleDiscover / handleRequest *)
 Definition existing (s : dst) (mac cid : N) (relayed : bool) : option lease :=
@@ -122,13 +124,13 @@ Definition pool_allocate (s : dst) (mac : N) : option (N * dst) :=
             | [] => None
             | ip :: tl =>
                 Some (ip, {| avail := tl; alloc := aput mac ip (alloc s); unavail := unavail s; leases := leases s;
-                             bycid := bycid s; nat := nat s; qos := qos s; qosi := qosi s; qost := qost s; cmac := cmac s; chash := chash s;
+                             bycid := bycid s; nat := nat s; natk := natk s; qos := qos s; qosi := qosi s; qost := qost s; cmac := cmac s; chash := chash s;
                              csub := csub s; cvlan := cvlan s; nsid := nsid s; starts := starts s; stops := stops s |})
             end
   end.
 
 Definition set_pool (s : dst) (av : list N) (al : amap N) (un : list N) : dst :=
-  {| avail := av; alloc := al; unavail := un; leases := leases s; bycid := bycid s; nat := nat s; qos := qos s; qosi := qosi s; qost := qost s;
+  {| avail := av; alloc := al; unavail := un; leases := leases s; bycid := bycid s; nat := nat s; natk := natk s; qos := qos s; qosi := qosi s; qost := qost s;
      cmac := cmac s; chash := chash s; csub := csub s; cvlan := cvlan s; nsid := nsid s;
      starts := starts s; stops := stops s |}.
 
@@ -162,7 +164,7 @@ Definition pool_mark (s : dst) (ip : N) : dst :=
 Definition drop_lease (s : dst) (mac : N) (l : lease) : dst :=
   {| avail := avail s; alloc := alloc s; unavail := unavail s; leases := adel mac (leases s);
      bycid := if l_cid l =? 0 then bycid s else adel (l_cid l) (bycid s);
-     nat := nat s; qos := qos s; qosi := qosi s; qost := qost s; cmac := cmac s; chash := chash s; csub := csub s; cvlan := cvlan s;
+     nat := nat s; natk := natk s; qos := qos s; qosi := qosi s; qost := qost s; cmac := cmac s; chash := chash s; csub := csub s; cvlan := cvlan s;
      nsid := nsid s; starts := starts s; stops := stops s |}.
 
 (* what handleRelease does besides the lease table and the pool: Accounting-Stop, QoS, NAT, caches.
@@ -170,7 +172,10 @@ Definition drop_lease (s : dst) (mac : N) (l : lease) : dst :=
 Definition release_rest (c : dcfg) (s : dst) (mac : N) (l : lease) : dst * list (N * N) :=
   let stop := c_radius c && negb (l_sid l =? 0) in
   ({| avail := avail s; alloc := alloc s; unavail := unavail s; leases := leases s; bycid := bycid s;
+      (* DeallocateNAT: nothing without an allocation; else the kernel entry is deleted (an entry that is
+         already gone is not an error) and the allocation forgotten *)
       nat := if c_nat c then sdel (l_ip l) (nat s) else nat s;
+      natk := if c_nat c && smem (l_ip l) (nat s) then sdel (l_ip l) (natk s) else natk s;
       (* RemoveSubscriberQoS deletes both kernel entries and the tracking entry, tracked or not *)
       qos := if c_qos c then sdel (l_ip l) (qos s) else qos s;
       qosi := if c_qos c then sdel (l_ip l) (qosi s) else qosi s;
@@ -202,7 +207,7 @@ Inductive res := RAddr (ip : N) | RNat (ip : N) | RQos (ip : N) | RCacheMac (mac
 Definition dheld (s : dst) (e : dsess) : list res :=
   (if ahas (se_mac e) (alloc s) || negb (smem (se_ip e) (avail s) || smem (se_ip e) (unavail s))
    then [RAddr (se_ip e)] else []) ++
-  (if smem (se_ip e) (nat s) then [RNat (se_ip e)] else []) ++
+  (if smem (se_ip e) (nat s) || smem (se_ip e) (natk s) then [RNat (se_ip e)] else []) ++
   (if smem (se_ip e) (qos s) || smem (se_ip e) (qosi s) || smem (se_ip e) (qost s) then [RQos (se_ip e)] else []) ++
   (if ahas (se_mac e) (cmac s) then [RCacheMac (se_mac e)] else []) ++
   (if negb (se_cid e =? 0) && ahas (se_cid e) (chash s) then [RCacheCid (se_cid e)] else []) ++
@@ -248,9 +253,10 @@ Definition dstep (c : dcfg) (s : dst) (o : dop) : dst * (N * N * list (N * N)) *
                    else match ex with Some e => l_sid e | None => 0 end in
         let l := {| l_ip := ip; l_cid := cid'; l_sid := sid; l_ttl := c_lease c |} in
         (* A Put into a full kernel map fails for a NEW key only (an existing key is updated in place).
-           AllocateNAT: the kernel Put comes before the bookkeeping; a failed Put allocates nothing *)
-        let natok := c_nat c && isnew && negb (full c 6 && negb (smem ip (nat s1))) &&
-                     (smem ip (nat s1) || (N.of_nat (length (nat s1)) <? c_natcap c)) in
+           AllocateNAT: an existing allocation is returned as it is (no kernel write); else the kernel Put comes
+           before the bookkeeping and a failed Put allocates nothing *)
+        let natok := c_nat c && isnew && negb (smem ip (nat s1)) && (N.of_nat (length (nat s1)) <? c_natcap c) &&
+                     negb (full c 6 && negb (smem ip (natk s1))) in
         (* SetSubscriberQoS: egress Put, then ingress Put, tracked only when both succeeded; the error is
            logged by handleRequest and the ACK goes out all the same *)
         let eg_ok := c_qos c && isnew && negb (full c 4 && negb (smem ip (qos s1))) in
@@ -267,6 +273,7 @@ Definition dstep (c : dcfg) (s : dst) (o : dop) : dst * (N * N * list (N * N)) *
                      leases := aput mac l (leases s1);
                      bycid := if cid' =? 0 then bycid0 else aput cid' (mac, l) bycid0;
                      nat := if natok then sadd ip (nat s1) else nat s1;
+                     natk := if natok then sadd ip (natk s1) else natk s1;
                      qos := if eg_ok then sadd ip (qos s1) else qos s1;
                      qosi := if in_ok then sadd ip (qosi s1) else qosi s1;
                      qost := if in_ok then sadd ip (qost s1) else qost s1;
@@ -316,11 +323,18 @@ Definition dstep (c : dcfg) (s : dst) (o : dop) : dst * (N * N * list (N * N)) *
       ({| avail := avail s; alloc := alloc s; unavail := unavail s;
           leases := map (fun p => (fst p, age_lease d (snd p))) (leases s);
           bycid := map (fun p => (fst p, (fst (snd p), age_lease d (snd (snd p))))) (bycid s);
-          nat := nat s; qos := qos s; qosi := qosi s; qost := qost s; cmac := cmac s; chash := chash s; csub := csub s; cvlan := cvlan s;
+          nat := nat s; natk := natk s; qos := qos s; qosi := qosi s; qost := qost s; cmac := cmac s; chash := chash s; csub := csub s; cvlan := cvlan s;
           nsid := nsid s; starts := starts s; stops := stops s |}, (0, 0, []), [])
   | Tick order =>
       let '(s', ev, mk) := fold_left (expire_one c) (order ++ map fst (leases s)) (s, [], []) in
       (s', (0, 0, ev), mk)
+  | Flush k =>
+      ({| avail := avail s; alloc := alloc s; unavail := unavail s; leases := leases s; bycid := bycid s;
+          nat := nat s; natk := if k =? 6 then [] else natk s;
+          qos := if k =? 4 then [] else qos s; qosi := if k =? 5 then [] else qosi s; qost := qost s;
+          cmac := if k =? 1 then [] else cmac s; chash := if k =? 2 then [] else chash s;
+          csub := if k =? 3 then [] else csub s; cvlan := cvlan s;
+          nsid := nsid s; starts := starts s; stops := stops s |}, (0, 0, []), [])
   end.
 
 (* ---- observables ---- *)
@@ -328,24 +342,24 @@ Record dsnap := {
   sn_alloc : list (N * N); sn_avail : list N; sn_unavail : list N;
   sn_leases : list (N * (N * N * bool));     (* mac -> (ip, cid, expired) *)
   sn_bycid : list (N * (N * N));             (* cid -> (mac, ip) *)
-  sn_nat : list N; sn_qos : list N; sn_qosi : list N; sn_qost : list N;
+  sn_nat : list N; sn_natk : list N; sn_qos : list N; sn_qosi : list N; sn_qost : list N;
   sn_cmac : list (N * N); sn_chash : list (N * N); sn_csub : list (N * N); sn_cvlan : list (N * N) }.
 
 Record dout := { o_reply : N; o_rip : N; o_acct : list (N * N); o_snap : dsnap }.
 
 (* positional constructor for the harness-written case files *)
 Definition DO (reply rip : N) (acct : list (N * N)) (al : list (N * N)) (av un : list N)
-  (ls : list (N * (N * N * bool))) (bc : list (N * (N * N))) (nt qs qi qt : list N)
+  (ls : list (N * (N * N * bool))) (bc : list (N * (N * N))) (nt nk qs qi qt : list N)
   (cm ch cs cv : list (N * N)) : dout :=
   {| o_reply := reply; o_rip := rip; o_acct := acct;
      o_snap := {| sn_alloc := al; sn_avail := av; sn_unavail := un; sn_leases := ls; sn_bycid := bc;
-                  sn_nat := nt; sn_qos := qs; sn_qosi := qi; sn_qost := qt; sn_cmac := cm; sn_chash := ch; sn_csub := cs; sn_cvlan := cv |} |}.
+                  sn_nat := nt; sn_natk := nk; sn_qos := qs; sn_qosi := qi; sn_qost := qt; sn_cmac := cm; sn_chash := ch; sn_csub := cs; sn_cvlan := cv |} |}.
 
 Definition dsnap_of (s : dst) : dsnap :=
   {| sn_alloc := alloc s; sn_avail := avail s; sn_unavail := unavail s;
      sn_leases := map (fun p => (fst p, (l_ip (snd p), l_cid (snd p), (l_ttl (snd p) <? 0)%Z))) (leases s);
      sn_bycid := map (fun p => (fst p, (fst (snd p), l_ip (snd (snd p))))) (bycid s);
-     sn_nat := nat s; sn_qos := qos s; sn_qosi := qosi s; sn_qost := qost s; sn_cmac := cmac s; sn_chash := chash s; sn_csub := csub s;
+     sn_nat := nat s; sn_natk := natk s; sn_qos := qos s; sn_qosi := qosi s; sn_qost := qost s; sn_cmac := cmac s; sn_chash := chash s; sn_csub := csub s;
      sn_cvlan := cvlan s |}.
 
 Fixpoint isort_ev (l : list (N * N)) : list (N * N) :=
@@ -375,7 +389,7 @@ Definition dsnap_eqb (a b : dsnap) : bool :=
                        (snd (fst (snd x)) =? snd (fst (snd y))) && Bool.eqb (snd (snd x)) (snd (snd y)))
            (sn_leases a) (sn_leases b) &&
   list_eqb (fun x y => (fst x =? fst y) && nn_eqb (snd x) (snd y)) (sn_bycid a) (sn_bycid b) &&
-  list_eqb N.eqb (sn_nat a) (sn_nat b) && list_eqb N.eqb (sn_qos a) (sn_qos b) &&
+  list_eqb N.eqb (sn_nat a) (sn_nat b) && list_eqb N.eqb (sn_natk a) (sn_natk b) && list_eqb N.eqb (sn_qos a) (sn_qos b) &&
   list_eqb N.eqb (sn_qosi a) (sn_qosi b) && list_eqb N.eqb (sn_qost a) (sn_qost b) &&
   list_eqb nn_eqb (sn_cmac a) (sn_cmac b) && list_eqb nn_eqb (sn_chash a) (sn_chash b) &&
   list_eqb nn_eqb (sn_csub a) (sn_csub b) && list_eqb nn_eqb (sn_cvlan a) (sn_cvlan b).
